@@ -51,9 +51,10 @@ Definition opt_leaf (local v : bytes) : list tree := if is_nil v then [] else [l
 
 Definition zero_tm : tm := mktm (-62135596800) 0 0.
 
-(* jid.JID.UnmarshalXMLAttr: the empty string leaves the destination alone *)
+(* jid.JID.UnmarshalXMLAttr: the empty string is the zero JID (whatever the
+   destination held before) *)
 Definition jid_attr (o : oracles) (s : bytes) (cur : bytes) : res bytes :=
-  if is_nil s then Ok cur else o_jid o s.
+  if is_nil s then Ok [] else o_jid o s.
 
 Definition f_jid {A} (o : oracles) (local : bytes) (get : A -> bytes) (put : bytes -> A -> A) : Schema.field A :=
   mkfield KAttr [] local (fun t a => bind (jid_attr o (payload_text t) (get a)) (fun j => Ok (put j a))).
